@@ -135,4 +135,31 @@ def derivePriv? (rr hs b : Nat) : Option Nat :=
 def viewOut? (p rr hs : Nat) : Option Nat :=
   if rr % ell = 0 ∨ p % ell = 0 then none else some (viewOutDl p hs)
 
+/-! ## `Transaction.ViewGhostKey` (common/transaction.go)
+
+The outputs of a transaction as the viewer sees them: is it a script output, which mask does it
+carry (masks are numbered by the harness), the discrete logs of its ghost keys. Every key of a
+script output is viewed with the hash scalar of (that output's mask, the output's position `i`
+in `tx.Outputs`) — the *real* index, not the position among the script outputs. `hs mask i` is
+the real `HashScalar(a•R, i)`; `none` = the harness has no value for that (mask, index) pair. -/
+
+structure TxOutDl where
+  script : Bool
+  mask : Nat
+  keys : List Nat
+deriving DecidableEq, Repr
+
+def viewTxFrom (hs : Nat → Nat → Option Nat) : Nat → List TxOutDl → Option (List (List Nat))
+  | _, [] => some []
+  | i, o :: rest =>
+    if !o.script then viewTxFrom hs (i + 1) rest
+    else
+      match hs o.mask i, viewTxFrom hs (i + 1) rest with
+      | some h, some r => some (o.keys.map (fun p => viewOutDl p h) :: r)
+      | _, _ => none
+
+/-- the viewed script outputs, in order, each with the recovered spend keys (discrete logs) -/
+def viewTx (hs : Nat → Nat → Option Nat) (outs : List TxOutDl) : Option (List (List Nat)) :=
+  viewTxFrom hs 0 outs
+
 end Mixin.Keys
